@@ -104,8 +104,8 @@ CHECKS = {
           "DESIGN.md §2 C11"),
   "C20": ("exploration",
           "differential property testing (proptest) in child processes: each generated case = one io_uring pool configuration (2..16 send / receive buffers of 4..64 KiB) + 1..3 workloads; every workload runs on the Tokio backend and on io_uring (zero-copy / multishot / cork / threshold knobs generated) in one child process of the harness built with rzmq's io-uring feature; oracles: equal delivered messages per connection, monitor event kinds, error kinds and raw-peer observations; absolute accounting; after quiescence cfg-gated gauges (send pool free = total, no receive chunk lent out, ring fully provided, no handler left), fd life-cycle log (one successful Close per registered fd) and /proc/self/fd count",
-          "Generated search (64 cases quick, 1600 thorough); workloads: rzmq-to-rzmq streams with reconnect churn and NULL/PLAIN/CURVE, raw peers that stall, break the handshake in 7 ways, feed chunked traffic with poisoned tails, drop the connection repeatedly.",
-          "Timing, counts of timeouts under back-pressure and Disconnected events are not compared; SQPOLL and the spinning polling strategies are not generated; a workload whose Tokio run already fails its accounting is not judged. Two known findings (failed handshakes are silent and not retried on io_uring; PUSH/PUB without multishot never see the peer's FIN). The ZMTP handler of this tree never takes the zero-copy send path, so the send-pool give-back is only observed as a gauge at rest.",
+          "Generated search (64 cases quick, 1600 thorough); workloads: rzmq-to-rzmq streams with reconnect churn and NULL/PLAIN/CURVE, raw peers that stall, break the handshake in 7 ways, feed chunked traffic with poisoned tails or a FIN right behind the data, drop the connection repeatedly; fan-in of 2..12 connections into one socket.",
+          "Timing, counts of timeouts under back-pressure and Disconnected events are not compared; SQPOLL and the spinning polling strategies are not generated; a workload whose Tokio run already fails its accounting is not judged. Three known findings (failed handshakes are silent and not retried on io_uring; PUSH/PUB without multishot never see the peer's FIN; from the ninth concurrent connection on the establishment notification can be dropped and the connection is never attached). The ZMTP handler of this tree never takes the zero-copy send path, so the send-pool give-back is only observed as a gauge at rest.",
           "DESIGN.md §2 C20"),
 }
 
